@@ -240,8 +240,31 @@ def h_conv_width(ctx):
             ctx.holds("helper refuses other widths with ValueError", sym_and(sym_not(ok), isinstance(e, ValueError)), exc_name(e))
 
 
+def h_generator_fresh(ctx, w, base):
+    """what the width-dispatching generator hands out belongs to the caller: changing one result does not change what a later
+    call with the same arguments returns (narrow window of values so that a memoising implementation stays explorable)"""
+    _ctx[0] = ctx
+    lo = base & ((1 << (8 * w)) - 64)
+    v = ctx.int("v", lo, lo + 63)
+    g1 = ByteFieldGenerator.from_int(w, v)
+    g1.value = v ^ 0x15
+    g2 = ByteFieldGenerator.from_int(w, v)
+    ctx.holds("from_int: a second field for the same value is unaffected by changes to the first",
+              sym_and(views_ok(g2, v, w), g2 == UnsignedByteField(v, w), g2 is not g1))
+    raw = ctx.bytes_of(be(v, w))
+    b1 = ByteFieldGenerator.from_bytes(w, raw)
+    b1.value = v ^ 0x2A
+    b2 = ByteFieldGenerator.from_bytes(w, raw)
+    ctx.holds("from_bytes: a second field for the same octets is unaffected by changes to the first",
+              sym_and(views_ok(b2, v, w), b2 == UnsignedByteField(v, w), b2 is not b1))
+
+
 def cases(tier):
     cs = []
+    for w in WIDTHS:
+        for base in tier_pick(tier, (0, 0x1234567890ABCDEF), (0, 0x1234567890ABCDEF, 0xFFFFFFFFFFFFFFFF, 0x80)):
+            cs.append(Case("generator-fresh-w%d-%x" % (w, base & ((1 << (8 * w)) - 64)), "views", h_generator_fresh, dict(w=w, base=base),
+                           bounds="width %d, 64 consecutive values from 0x%x" % (w, base & ((1 << (8 * w)) - 64))))
     for w in (0,) + WIDTHS:
         cs.append(Case("views-w%d" % w, "views", h_views, dict(w=w), bounds="all values of width %d; all octet strings of that width" % w))
     cs.append(Case("views-twin", "views", h_views, dict(w=2, twin=True), expect_violation=True, bounds="reachability twin"))
